@@ -100,7 +100,7 @@ def deg_scene(rng, cid):
     for _ in range(rng.randrange(1, 7)):
         c = rng.random()
         if c < 0.12:
-            ops.append("xf " + scene.xf_tokens(rng.choice([(0.0,) * 6, (1.0, 2.0, 2.0, 4.0, 1.0, 1.0), (1e-20, 0.0, 0.0, 1e-20, 0.0, 0.0),
+            ops.append("xf " + scene.xf_tokens(rng.choice([(0.0,) * 6, (0.5, 0.25, 0.5, 0.25, 0.0, 0.0), (1e-20, 0.0, 0.0, 1e-20, 0.0, 0.0),
                                                           (1.0, 0.0, 0.0, 1.0, 1.0, -1.0), (0.5, 0.0, 0.0, 0.5, 0.0, 0.0), scene.IDENT])))
         elif c < 0.24:
             r = rng.choice([(0, 0, 0, 0), (3, 3, 1, 1), (5, 5, 5, 9), (-2 ** 29, -2 ** 29, 2 ** 29, 2 ** 29), (2 ** 29, 2 ** 29, 2 ** 30, 2 ** 30),
